@@ -469,8 +469,15 @@ def suite_gen_utilint(rng, tier, shard, nshards):
                        tol=0.0, tag="index_labels:case_sensitive=%s" % cs,
                        info={"op": "gen.utilint", "fn": "index_labels", "labels": list(labs), "case_sensitive": cs},
                        nontrivial=n > 0)
+    for n in (0, 1, 2, 11, 101):
+        for prefix in ("__", "", "seg "):
+            items = [Fr(k) for k in range(n)]
+            yield Case("gen.utilint", ["generate_labels", items, prefix],
+                       lambda n=n, prefix=prefix: mir_eval.util.generate_labels(np.zeros(n), prefix),
+                       tol=0.0, tag="generate_labels", info={"op": "gen.utilint", "fn": "generate_labels", "n": n,
+                                                             "prefix": prefix}, nontrivial=n > 0)
     # the decimal places of intervals_to_boundaries (dyadic values: exact in binary64, not ties)
-    for q in (0, 1, 2, 3, 5, 7):
+    for q in (-1, 0, 1, 2, 3, 5, 7):
         for _ in range(6):
             ivs, _l = rand_annotation(rng)
             yield Case("gen.utilint", ["intervals_to_boundaries", [[s, e] for s, e in ivs], q],
